@@ -1620,14 +1620,24 @@ def translate(repo, leaf):
         declared = [d for d in declared if d[1][0] not in ("int", "bool") or d[0] in lf.used]
         declared += [(nm, env[nm][1]) for nm in sorted(leaf.get("vars", {})) if nm in lf.used and nm not in dict(declared)]
     roots = [d[0] for d in declared] + [r for r in lf.extra_roots if r not in dict(declared)]
+    # in the `_args` lists a parameter of the function is named by its POSITION (arg1, arg2, .. after self): renaming a
+    # parameter is harmless and must not change the list (fourth audit, H2); `self` and the `vars` of an anchored
+    # expression (which the anchor regexes spell out anyway) keep their names
+    posname = {}
+    k = 0
+    for nm, _ty in lf.declared:
+        if nm == "self":
+            continue
+        k += 1
+        posname[nm] = "arg%d" % k
     for root in roots:
         decl = dict(declared).get(root)
         if decl is not None and decl[0] in ("int", "bool"):
-            plist.append([(root,), root, decl, root])
+            plist.append([(root,), root, decl, posname.get(root, root)])
             continue
         mine = sorted((v[1], k, v[0]) for k, v in lf.places.items() if k[0] == root)
         for _, place, ty in mine:
-            desc = place[0] + "".join("[%s]" % x if x.isdigit() else "." + x for x in place[1:])
+            desc = posname.get(place[0], place[0]) + "".join("[%s]" % x if x.isdigit() else "." + x for x in place[1:])
             add(place, ty, desc)
     for pl in lf.places:
         if pl[0] not in roots:
